@@ -259,7 +259,8 @@ class SyncObj(object):
         self.__newAppendEntriesTime = 0
 
         self.__commandsWaitingCommit = collections.defaultdict(list)  # logID => [(termID, callback), ...]
-        self.__commandsLocalCounter = 0
+        # Replies to requests of a previous incarnation of this node must not match new requests
+        self.__commandsLocalCounter = random.getrandbits(48)
         self.__commandsWaitingReply = {}  # commandLocalCounter => callback
 
         self.__properies = set()
